@@ -259,6 +259,10 @@ ItemDefects(v) == <<
     [n |-> "script-number-huge", t |-> <<"script", "99999999999", "sh0", "{", "}">>],
     [n |-> "script-number-negative", t |-> <<"script", "-", "5", "sn0", "{", "}">>],
     [n |-> "function-with-params", t |-> <<"void", "fp0", "(", "int", "a", ",", "float", "b", ")", "{", v.V, "=", "a", ";", "}">>],
+    [n |-> "function-called-with-expr-args", t |-> <<"void", "fq1", "(", "int", "a", ",", "float", "b", ")", "{", "}",
+                                              "void", "fq2", "(", "int", "a", ")", "{", "fq1", "(", "(", "(", "a", "-", "100", ")", "%", "(", v.V, "/", v.W, ")", ")", ",", v.F, ")", ";", "}">>],
+    [n |-> "function-called-wrong-arity", t |-> <<"void", "fq3", "(", "int", "a", ")", "{", "}", "void", "fq4", "(", ")", "{", "fq3", "(", ")", ";", "fq3", "(", "1", ",", "2", ")", ";", "}">>],
+    [n |-> "function-recursive", t |-> <<"void", "fq5", "(", "int", "a", ")", "{", "fq5", "(", "a", "+", "1", ")", ";", "}">>],
     [n |-> "function-duplicate-param", t |-> <<"void", "fd0", "(", "int", "a", ",", "int", "a", ")", "{", "}">>],
     [n |-> "function-returning-int", t |-> <<"int", "fr0", "(", ")", "{", "return", "1", ";", "}">>],
     [n |-> "inline-function",   t |-> <<"inline", "void", "fi0", "(", ")", "{", "}">>],
